@@ -24,11 +24,25 @@ What is proved
 * `C02.compose`                 assume/guarantee composition over a finite acyclic graph, over
   abstract contract predicates.
 
-Not proved (kept as `def … : Prop`): `C02.node_contract_full` – the same for one-to-many and
+* `C02.tracer_refines`, `C02.tracer_quiescent_empty_general`   ALL node kinds, tracer level: for every
+  sequence of tracer calls following the call protocol (`Uniflow.ATracer.Pre`) – several derived
+  packets per request, several readers and writers, requests written directly, any interleaving –
+  the tracer model sends exactly the abstract tracer's replies (`Uniflow.ATracer`, requests with one
+  cell per derived packet, answered per reader in read order with `Join` of the cells), never
+  panics, and holds exactly the abstract state (empty maps when nothing is in flight).
+* `C02.node_contract_partial_all_kinds`, `C02.node_contract_one_to_many_partial`,
+  `C02.node_contract_many_to_one_partial`   node level, every kind, every schedule (including
+  actions that return their input): replies = abstract tracer's replies on the calls the node
+  makes, no panic – under the hypothesis that those calls follow the protocol
+  (`C02.node_protocol_full` is that hypothesis as an unproved `def`; `protoB` decides it per
+  schedule, `C02.protocol_check_sound`). `C02.atracer_flush_in_order`: what those replies are.
+
+Not proved (kept as `def … : Prop`): `C02.node_protocol_full` (see above), `C02.node_contract_full` – the same for one-to-many and
 many-to-one nodes and for actions returning the in packet itself; these are covered by the
 correspondence runs and the oracle of harness/c02 only.
 -/
 import Uniflow.Proofs.Node
+import Uniflow.Proofs.ATracer
 
 open Uniflow.Tracer Uniflow.Node Uniflow.NodeSpec
 
@@ -222,6 +236,124 @@ theorem C02.tracer_quiescent_empty_nonvacuous :
                   .read, .answer (outW 0) (.pay (.atom 21)), .finishOut (.atom 12), .op true, .op true,
                   .answer (outW 0) (.pay (.atom 22))])).1 := by
   constructor <;> rfl
+
+
+/-! ### all three node kinds: the tracer refines the abstract tracer (multi-target, any interleaving)
+
+`Uniflow.ATracer` (lean/Uniflow/Spec/ATracer.lean) is the specification of the tracer for every
+node kind: requests with one cell per derived packet, complete when all cells are filled, answered
+with `Join` of the cells, per reader in read order. -/
+
+open Uniflow.ATracer in
+/-- **Tracer refinement.** For EVERY sequence of tracer calls (`Read`, `Link`, `Write` accepted or
+not / `Write(nil, ·)`, `Receive` with an answer) – any number of readers, writers, requests in
+flight, several derived packets per request, requests written directly – that follows the call
+protocol `Pre`, the tracer model (fixed code) sends exactly the replies of the abstract tracer,
+its slot search never indexes out of range, `resolve` never runs out of fuel, and the abstract
+tracer never meets a call it cannot interpret. This is the multi-target generalisation of the
+one-to-one proof: `fillSource`'s slot search over several targets is `slot_fill`. -/
+theorem C02.tracer_refines (cs : List Call) (hp : Protocol {} cs) :
+    (trun {} cs).2 = (arun {} cs).2 ∧ (trun {} cs).1.panic = false ∧ (arun {} cs).1.bad = false := by
+  obtain ⟨h1, h2, h3⟩ := run_refines cs {} {} trel_init inv_init hp
+  exact ⟨h1, h2.panic, h3.good⟩
+
+open Uniflow.ATracer in
+/-- the tracer's maps hold exactly the abstract state after any protocol-following call sequence;
+in particular with no request in flight and no write owed all seven maps are empty -/
+theorem C02.tracer_quiescent_empty_general (cs : List Call) (hp : Protocol {} cs)
+    (hq : (arun {} cs).1.reqs = []) (hw : (arun {} cs).1.wq = []) : isEmpty (trun {} cs).1 = true :=
+  quiescent_empty_general cs hp hq hw
+
+open Uniflow.ATracer in
+/-- **Node contract, all three kinds, relative to the call protocol.** The replies of a node of ANY
+kind (one-to-one, one-to-many, many-to-one with its `ReadGroup`), for every schedule of
+{deliver, read, action returns (any outcome, including the input packet itself), one Link/Write
+call at a time, downstream answer} steps, are exactly the abstract tracer's replies on the calls
+the node makes (`callsOf`), and the tracer does not panic – provided those calls follow the
+protocol.  `_partial`: the hypothesis `Protocol` (the node programs never write an unlinked packet,
+never link to an answered request, use fresh ids) is NOT proved here for arbitrary schedules
+(`C02.node_protocol_full` below); `protoB` decides it for any concrete schedule. -/
+theorem C02.node_contract_partial_all_kinds (k : Kind) (sched : List Step)
+    (hp : Protocol {} (callsOf (Uniflow.Node.mk k) sched)) :
+    (Uniflow.Node.run (Uniflow.Node.mk k) sched).2 = (arun {} (callsOf (Uniflow.Node.mk k) sched)).2 ∧
+    (Uniflow.Node.run (Uniflow.Node.mk k) sched).1.tr.panic = false := by
+  have hc := run_calls sched (Uniflow.Node.mk k) rfl
+  obtain ⟨h1, h2, _⟩ := C02.tracer_refines _ hp
+  have e : (Uniflow.Node.mk k).tr = {} := rfl
+  rw [e] at hc
+  constructor
+  · rw [← h1, hc]
+  · rw [hc] at h2; exact h2
+
+open Uniflow.ATracer in
+/-- one-to-many instance (several derived packets per request; error port; `Write(nil, in)` echo) -/
+theorem C02.node_contract_one_to_many_partial (nOut : Nat) (sched : List Step)
+    (hp : Protocol {} (callsOf (Uniflow.Node.mk (.oneToMany nOut)) sched)) :
+    (Uniflow.Node.run (Uniflow.Node.mk (.oneToMany nOut)) sched).2 =
+      (arun {} (callsOf (Uniflow.Node.mk (.oneToMany nOut)) sched)).2 ∧
+    (Uniflow.Node.run (Uniflow.Node.mk (.oneToMany nOut)) sched).1.tr.panic = false :=
+  C02.node_contract_partial_all_kinds _ sched hp
+
+open Uniflow.ATracer in
+/-- many-to-one instance (one forward thread per in-port sharing the tracer and the `ReadGroup`) -/
+theorem C02.node_contract_many_to_one_partial (nIn : Nat) (sched : List Step)
+    (hp : Protocol {} (callsOf (Uniflow.Node.mk (.manyToOne nIn)) sched)) :
+    (Uniflow.Node.run (Uniflow.Node.mk (.manyToOne nIn)) sched).2 =
+      (arun {} (callsOf (Uniflow.Node.mk (.manyToOne nIn)) sched)).2 ∧
+    (Uniflow.Node.run (Uniflow.Node.mk (.manyToOne nIn)) sched).1.tr.panic = false :=
+  C02.node_contract_partial_all_kinds _ sched hp
+
+open Uniflow.ATracer in
+/-- non-vacuity, one-to-many with two out-ports: one request, two derived packets linked, the first
+accepted and answered (atom 21) AFTER the second was refused by its writer (echo, atom 12): the
+protocol holds (`protoB`) and the single reply is `Join [21, 12]`, a slice in port order. -/
+theorem C02.node_contract_one_to_many_nonvacuous :
+    protoB {} (callsOf (Uniflow.Node.mk (.oneToMany 2))
+      [.deliver 0 ⟨1, .atom 1⟩, .read 0, .finish 0 (.outs [some ⟨2, .atom 11⟩, some ⟨3, .atom 12⟩]),
+       .op 0 false, .op 0 false, .op 0 true, .op 0 false, .answer 1 (.pay (.atom 21))]) = true ∧
+    (match (Uniflow.Node.run (Uniflow.Node.mk (.oneToMany 2))
+      [.deliver 0 ⟨1, .atom 1⟩, .read 0, .finish 0 (.outs [some ⟨2, .atom 11⟩, some ⟨3, .atom 12⟩]),
+       .op 0 false, .op 0 false, .op 0 true, .op 0 false, .answer 1 (.pay (.atom 21))]).2 with
+      | [Ev.reply 0 (.pay (.slice [.atom 21, .atom 12]))] => true
+      | _ => false) = true := by
+  constructor <;> rfl
+
+open Uniflow.ATracer in
+/-- non-vacuity, many-to-one with two in-ports: the first member of a group is answered at once with
+itself (echo), the member that completes the group with the answer to the action's output. -/
+theorem C02.node_contract_many_to_one_nonvacuous :
+    protoB {} (callsOf (Uniflow.Node.mk (.manyToOne 2))
+      [.deliver 0 ⟨1, .atom 1⟩, .read 0, .op 0 false, .deliver 1 ⟨2, .atom 2⟩, .read 1,
+       .finish 1 (.outs [some ⟨3, .atom 3⟩]), .op 1 false, .op 1 true, .answer 1 (.pay (.atom 9))]) = true ∧
+    (match (Uniflow.Node.run (Uniflow.Node.mk (.manyToOne 2))
+      [.deliver 0 ⟨1, .atom 1⟩, .read 0, .op 0 false, .deliver 1 ⟨2, .atom 2⟩, .read 1,
+       .finish 1 (.outs [some ⟨3, .atom 3⟩]), .op 1 false, .op 1 true, .answer 1 (.pay (.atom 9))]).2 with
+      | [Ev.reply 0 (.pay (.atom 1)), Ev.reply 1 (.pay (.atom 9))] => true
+      | _ => false) = true := by
+  constructor <;> rfl
+
+open Uniflow.ATracer in
+/-- the executable protocol check is sound (so `protoB … = true` may replace `Protocol` above) -/
+theorem C02.protocol_check_sound (cs : List Call) (h : protoB {} cs = true) : Protocol {} cs :=
+  protoB_sound cs {} h
+
+open Uniflow.ATracer in
+/-- what the abstract tracer's replies are: `flushR r` (its only source of replies) answers exactly the
+maximal complete prefix of reader `r`'s requests – in read order, one reply each (`Join` of the
+request's cells), the answered requests leave the state, the next one of `r` is incomplete. -/
+theorem C02.atracer_flush_in_order (r : Rid) (rs : List Req) :
+    ∃ pre, rs.filter (fun x => x.r = r) = pre ++ (flushR r rs).1.filter (fun x => x.r = r) ∧
+      (∀ x ∈ pre, ∃ a, reply x.st = some a) ∧
+      (flushR r rs).2 = pre.flatMap (replyEv r) ∧
+      (∀ x rest, (flushR r rs).1.filter (fun x => x.r = r) = x :: rest → reply x.st = none) :=
+  flushR_spec r rs
+
+open Uniflow.ATracer in
+/-- the remaining obligation for an unconditional theorem for every kind (NOT proved): node programs
+follow the call protocol under every schedule with fresh packet ids. -/
+def C02.node_protocol_full : Prop :=
+  ∀ (k : Kind) (sched : List Step), (sched.flatMap introduced).Nodup → (∀ st ∈ sched, validFor k st) →
+    Protocol {} (callsOf (Uniflow.Node.mk k) sched)
 
 /-! ### the pinned tree -/
 
